@@ -232,6 +232,7 @@ struct St {
     ops: u64,
     transitions: u64,
     sweeps: u64,
+    rom_reloads: u64,
     states: HashSet<u32>,
     sample: Option<J>,
 }
@@ -331,6 +332,21 @@ fn history(ctx: &Ctx, rng: &mut Rng, is128: bool, host_rom: bool, len: usize, st
                 }
                 hist.push(format!("LDIR {:04x}->{:04x} x{}", src, dst, n));
             }
+            9 if rng.chance(1, 3) => {
+                // the host supplies the ROM set again while the machine runs (same images): the
+                // window keeps showing the page selected by the last accepted paging write
+                let pages = sh.rom.clone();
+                let r = match rng.below(3) {
+                    0 => m.emu.load_rom(VecRomSet { pages, next: 0 }),
+                    k => m.emu.load_rom(ShortRomSet { pages, next: 0, chunk: [4096, 1000][k as usize - 1] }),
+                };
+                if let Err(e) = r {
+                    ctx.violation("memory-map:load-rom-failed", &format!("load_rom of a complete ROM set failed at run time: {:?}", e), jobj! {"case"=>case,"is128"=>is128});
+                    return;
+                }
+                st.rom_reloads += 1;
+                hist.push("load_rom (same images)".into());
+            }
             8 => {
                 // port reads never page: an IN from any port – aliases of the paging port included,
                 // taken while the ULA is fetching the picture so that the bus is not idle – must
@@ -415,7 +431,7 @@ pub fn run(ctx: &Ctx) -> Evidence {
     let emb = [embedded_roms(false), embedded_roms(true)];
     let emb = &emb;
     let res = par_map(ctx.jobs(), shards, |shd| {
-        let mut st = St { ops: 0, transitions: 0, sweeps: 0, states: HashSet::new(), sample: None };
+        let mut st = St { ops: 0, transitions: 0, sweeps: 0, rom_reloads: 0, states: HashSet::new(), sample: None };
         // exhaustive transitions: 64 states spread over the shards; host ROM for odd states
         transitions(ctx, shd as u32, shd % 2 == 1, &mut st, emb);
         for i in 0..(n_hist / shards).max(1) {
@@ -432,6 +448,7 @@ pub fn run(ctx: &Ctx) -> Evidence {
         ev.add_num("history_ops", r.ops);
         ev.add_num("exhaustive_transitions", r.transitions);
         ev.add_num("full_sweeps", r.sweeps);
+        ev.add_num("rom_sets_reloaded_at_run_time", r.rom_reloads);
         states.extend(r.states);
         if let Some(s) = r.sample {
             ev.sample(s);
